@@ -596,17 +596,29 @@ impl<P: RuntimeProvider + Send + Sync> ZoneHandler for InMemoryZoneHandler<P> {
 
         let closest_proof = inner.closest_nsec(name);
 
-        // we need the wildcard proof, but make sure that it's still part of the zone.
-        let wildcard = name.base_name();
+        // we need the wildcard proof: the NSEC that shows there is no wildcard at the closest
+        // encloser of the name, which is its nearest ancestor that exists in the zone and not
+        // necessarily its parent (RFC 4035 section 3.1.3.2). Make sure that it's still part of
+        // the zone.
         let origin = self.origin();
+        let mut wildcard = name.base_name();
+        while origin.zone_of(&wildcard) && wildcard != *origin && !inner.name_exists(&wildcard) {
+            wildcard = wildcard.base_name();
+        }
         let wildcard = if origin.zone_of(&wildcard) {
             wildcard
         } else {
             origin.clone()
         };
 
+        // a wildcard that exists at the closest encloser is the source of a synthesized answer,
+        // which only needs the proof that the name itself does not exist
+        let expanded = wildcard
+            .prepend_label("*")
+            .is_ok_and(|source| inner.name_exists(&LowerName::from(source)));
+
         // don't duplicate the record...
-        let wildcard_proof = if wildcard != *name {
+        let wildcard_proof = if wildcard != *name && !expanded {
             inner.closest_nsec(&wildcard)
         } else {
             None
